@@ -56,3 +56,13 @@ pub trait OffsetOutline {
     /// than zero will shrink the shape.
     fn offset(&self, offset: i32) -> Self;
 }
+
+/// Verification hook, see `crate::verif_hooks::plane_sector`.
+#[cfg(embedded_graphics_verif)]
+#[doc(hidden)]
+pub fn verif_plane_sector(
+    angle_start: crate::geometry::Angle,
+    angle_sweep: crate::geometry::Angle,
+) -> (u8, [i32; 2], [i32; 2]) {
+    common::PlaneSector::new(angle_start, angle_sweep).verif_parts()
+}
